@@ -111,6 +111,16 @@ func (x *Explorer) viol(oracle, key, what string, hist []Event) {
 
 // step applies one event to the instance with all enabled oracles; hist is the history including e.
 func (x *Explorer) step(in *inst, e Event, hist []Event, check bool) {
+	if e.Kind == "lb" && e.LB >= len(in.n.Pending) {
+		// a scripted history delivers the node's own signature, but the node never sent it to itself: nothing to
+		// deliver. C02 judges that; every other check goes on without the event.
+		if check && x.Oracles["C02"] {
+			x.viol("C02", "C02 own signature lost: the node signed its observation but the signature never reached its own aggregation", "the history's loopback step finds no pending loopback", hist)
+		} else if check {
+			x.R.Add("loopbacks_missing_not_judged_here", 1)
+		}
+		return
+	}
 	input := x.C.Materialise(in.n, e)
 	if e.Kind == "tick" {
 		vtime.Advance(time.Duration(e.DtSec) * time.Second)
@@ -175,7 +185,7 @@ func (x *Explorer) step(in *inst, e Event, hist []Event, check bool) {
 	if x.Oracles["C02"] {
 		x.oracleC02(in, e, input, exp, out, pre, post, hist)
 		if out.LostLoopback > 0 {
-			x.viol("C02", "C02 own signature lost: the node signed its observation but the signature never reached its own aggregation (inbound observation queue full at that moment)", fmt.Sprintf("%d observation(s) broadcast, %d fewer arrived on the node's own observation queue once there was room", len(out.Obs), out.LostLoopback), hist)
+			x.viol("C02", "C02 own signature lost: the node signed its observation but the signature never reached its own aggregation", fmt.Sprintf("%d observation(s) broadcast, %d fewer arrived on the node's own observation queue once there was room", len(out.Obs), out.LostLoopback), hist)
 		}
 	}
 	if x.OnStep != nil {
